@@ -99,6 +99,73 @@ def pad_with_free(data: bytes) -> bytes:
     return res
 
 
+def add_moof_pssh(data: bytes, kid: bytes, system_id: bytes = bytes.fromhex('1077efecc0b24d02ace33c1e52e2fb4b')) -> bytes:
+    """The same encrypted media with a version 1 pssh box naming one more key id appended to its first moof (what a packager writes
+    for a track whose keys rotate): the indexer then knows two key ids for the track.  The moof grows by 52 bytes; the trun data
+    offset and the preceding sidx reference are adjusted, the sample auxiliary information (before the new box) keeps its place."""
+    p = Parsed(data)
+    moof = next(b for b in p.top if b.name == 'moof')
+    trun = moof.find('traf', 'trun')
+    if trun is None:
+        raise ValueError('no trun')
+    box = struct.pack('>I4sI', 52, b'pssh', 1 << 24) + system_id + struct.pack('>I', 1) + kid + struct.pack('>I', 0)
+    out = bytearray(data)
+    flags = struct.unpack('>I', data[trun.pos + trun.hdr:trun.pos + trun.hdr + 4])[0] & 0xFFFFFF
+    if not flags & 1:
+        raise ValueError('trun without data offset')
+    at = trun.pos + trun.hdr + 8
+    out[at:at + 4] = struct.pack('>i', struct.unpack('>i', data[at:at + 4])[0] + len(box))
+    out[moof.pos:moof.pos + 4] = struct.pack('>I', moof.size + len(box))
+    prev = [b for b in p.top if b.end == moof.pos and b.name == 'sidx']
+    if prev and data[prev[0].pos + 8] == 0:
+        r = prev[0].pos + 8 + 4 + 4 + 4 + 4 + 4 + 4
+        out[r:r + 4] = struct.pack('>I', struct.unpack('>I', data[r:r + 4])[0] + len(box))
+    out[moof.end:moof.end] = box
+    res = bytes(out)
+    if not Parsed(res).well_formed():
+        raise ValueError('adding the pssh produced a malformed file')
+    return res
+
+
+def irregular_durations(data: bytes) -> bytes:
+    """The same media re-authored so that every trun carries per-sample durations that differ from the tfhd default (sample k of
+    fragment n lasts default + ((n + k) % 5) * 3 ticks) and every tfdt is the running total.  Authored with the repository's own
+    encoder (the only place where this module uses it); the result is verified with the independent reader: every trun has the
+    sample-duration flag, durations are not all equal, and each tfdt equals the sum of all earlier sample durations."""
+    import io
+    from dashlive.mpeg import mp4
+    from dashlive.utils.buffered_reader import BufferedReader
+    wrap = mp4.Wrapper(children=mp4.Mp4Atom.load(BufferedReader(io.BytesIO(data)), options=mp4.Options(mode='rw')))
+    decode_time = 0
+    frag = 0
+    for atom in wrap.children:
+        if atom.atom_type != 'moof':
+            continue
+        frag += 1
+        tfhd, trun = atom.traf.tfhd, atom.traf.trun
+        if not tfhd.flags & 0x08:
+            raise ValueError('tfhd without default sample duration')
+        trun.flags |= 0x100
+        atom.traf.tfdt.base_media_decode_time = decode_time
+        for k, sample in enumerate(trun.samples):
+            sample.duration = tfhd.default_sample_duration + ((frag + k) % 5) * 3
+            decode_time += sample.duration
+    res = bytes(wrap.encode())
+    p = Parsed(res)
+    if not p.well_formed():
+        raise ValueError('re-authored file is malformed')
+    total = 0
+    for b in p.top:
+        if b.name != 'moof':
+            continue
+        trun, tfdt = b.find('traf', 'trun'), b.find('traf', 'tfdt')
+        durs = list(trun.f.get('durations', []))
+        if not trun.f['flags'] & 0x100 or None in durs or len(set(durs)) < 2 or tfdt.f['base_media_decode_time'] != total:
+            raise ValueError('re-authored file does not have the intended shape')
+        total += sum(durs)
+    return res
+
+
 def strip_sidx(data: bytes) -> bytes:
     """The same media without its top-level sidx boxes (a packager that writes styp + moof + mdat per fragment): offsets inside the
     fragments are relative to their moof and stay valid."""
